@@ -1457,6 +1457,9 @@ static int remote_dep_mpi_pack_dep(int peer,
 #endif
     /* And now pack the updated message (msg->length and msg->output_mask) itself. */
     parsec_ce.pack(&parsec_ce, msg, dep_count, dep_dtt, packed_buffer, length, &saved_position);
+#if defined(PARSEC_VERIF)
+    PARSEC_VERIF_EVENT(PARSEC_VERIF_EV_ACT_SEND, msg, peer, 0);
+#endif
     msg->length = dsize + deps->taskpool->tdm.module->outgoing_message_piggyback_size;
     deps->taskpool->tdm.module->outgoing_message_pack(deps->taskpool, peer, packed_buffer, &saved_position, length);
     return 0;
@@ -2001,6 +2004,9 @@ remote_dep_mpi_save_activate_cb(parsec_comm_engine_t *ce, parsec_ce_tag_t tag,
         ce->unpack(ce, msg, length, &position, &deps->msg, dep_count, dep_dtt);
         deps->from = src;
         deps->eager_msg = (char*)msg + position;
+#if defined(PARSEC_VERIF)
+        PARSEC_VERIF_EVENT(PARSEC_VERIF_EV_ACT_RECV, &deps->msg, src, 0);
+#endif
 
         /* Retrieve the data arenas and update the msg.incoming_mask to reflect
          * the data we should be receiving from the predecessor.
